@@ -57,7 +57,7 @@ BOUNDS = {
     "quick": dict(n=3, both_upto=2, n_red=3, k=4, k_red=4),
     "thorough": dict(n=3, both_upto=3, n_red=4, k=5, k_red=6),
 }
-TIME_CAP = {"quick": 600, "thorough": 3000}
+TIME_CAP = {"quick": 1800, "thorough": 5400}
 
 
 def bounds(tier):
